@@ -134,6 +134,43 @@ def brief_step(tr, k):
     return {"cfg": {x: tr[x] for x in ("n", "va", "fl")}, "step": k, "ev": s["ev"], "pre": obs(pre), "post": obs(s["obs"])}
 
 
+def directed_schedules():
+    """Two hand-written behaviours of the spec (replayed and followed by TLC like the generated ones), so that
+    every run exercises the two as-built deviations that need a longer set-up than random schedules often reach.
+    Ping outcomes are listed twice because the real code visits its peers in map order."""
+    def ev(op, n=0, m=0, kind="", t=0, b=None):
+        return {"op": op, "n": n, "m": m, "kind": kind, "t": t, "o": False, "nx": 0, "b": b or ["idle"] * 3}
+
+    def ping(L, t, outcomes):
+        evs = [ev("tick", L)]
+        for _ in range(2):
+            for m, how in outcomes.items():
+                evs += [ev("deliver", L, m, "health", t), ev("reply", L, m, "health", t)] if how == "ok" else [ev("fail", L, m)]
+        return evs
+
+    elect1 = [ev("tick", 1, b=["elect", "idle", "idle"]), ev("deliver", 1, 2, "vote", 1, b=["elect", "idle", "idle"]), ev("reply", 1, 2, "vote", 1)]
+    # (a) the connection leader -> follower 3 flaps twice: the second list without 3 reaches 3 when its debounce flag is set
+    a = elect1 + ping(1, 1, {2: "ok", 3: "fail"}) + [ev("reconnect", 1, 3)] + ping(1, 1, {2: "ok", 3: "ok"}) + ping(1, 1, {2: "ok", 3: "ok"}) \
+        + ping(1, 1, {2: "ok", 3: "fail"}) + [ev("reconnect", 1, 3)] + ping(1, 1, {2: "ok", 3: "ok"}) + ping(1, 1, {2: "ok"})
+    # (b) follower 2 adopts the ring {1,2} from leader 1, is then elected itself and advertises that ring's signature
+    #     together with its own, never updated, list {1,2,3}
+    b = elect1 + ping(1, 1, {2: "ok", 3: "fail"}) + ping(1, 1, {2: "ok"}) + ping(1, 1, {2: "ok"}) \
+        + [ev("tick", 2, b=["idle", "elect", "idle"]), ev("deliver", 2, 3, "vote", 2, b=["idle", "elect", "idle"]), ev("reply", 2, 3, "vote", 2)] \
+        + ping(2, 2, {1: "ok", 3: "ok"}) + ping(2, 2, {1: "ok", 3: "ok"}) + ping(2, 2, {1: "ok", 3: "ok"})
+    return [json.dumps({"cfg": {"n": 3, "va": 1, "fl": 1}, "hist": h}) + "\n" for h in (a, b)]
+
+
+def sim_counts(r):
+    """TLC -simulate prints its totals differently from the model checker."""
+    import re
+    m = re.search(r"The number of states generated: (\d+)", r.out)
+    if m:
+        r.generated = r.distinct = int(m.group(1))
+    m = re.search(r"(\d+) traces generated", r.out)
+    r.traces = int(m.group(1)) if m else 0
+    return r
+
+
 def run(ctx):
     thorough = ctx.tier == "thorough"
     selftest = os.environ.get("VERIF_C17_SELFTEST", "")
@@ -145,21 +182,25 @@ def run(ctx):
                  [("RingCheck_n3.cfg", "Nodes3", 3), ("RingCheck_n4.cfg", "Nodes4", 1)]
     for name, nodes, hmax in ring_cfgs:
         ring_cfg(ctx, name, nodes, hmax)
-    if thorough:
-        elect_cfg(ctx, "Election_x.cfg", "Cfg3b", 2, 3, 1, 0, 0)
-        elect_cfg(ctx, "Election_y.cfg", "Cfg3", 1, 3, 2, 1, 0)
-    else:
-        elect_cfg(ctx, "Election_x.cfg", "Cfg3b", 2, 2, 1, 0, 0)
+    # exhaustive, 3 nodes: x = one term, 3 calls in flight (everything but the stale-term and missed++ branches),
+    # y = vote_after 2 / node_fail_after 2 (missed++), z (thorough) = two terms (stale-term leaders)
+    elect_cfg(ctx, "Election_x.cfg", "Cfg3b", 1, 3, 1, 1 if thorough else 0, 0)
+    elect_cfg(ctx, "Election_y.cfg", "Cfg3", 1, 2, 2, 0, 0)
+    elect_cfg(ctx, "Election_z.cfg", "Cfg3b", 2, 2, 1, 0, 0)
     elect_cfg(ctx, "Election_sim.cfg", "Cfg45", 99, 99, 99, 1, 2, constraint=False)
+    elect_cfg(ctx, "Election_sim3.cfg", "Cfg3", 99, 99, 99, 1, 2, constraint=False)
 
     u1 = []
     for name, _, _ in ring_cfgs:
         u1.append(("RingCheck/" + name, Bg(ctx.tlc_must_pass, "RingCheck", name, workers=4, timeout=1200)))
-    u1.append(("Election/exhaustive-3", Bg(ctx.tlc_must_pass, "Election", "Election_x.cfg", workers=8, timeout=1500)))
+    u1.append(("Election/exhaustive-3-x", Bg(ctx.tlc_must_pass, "Election", "Election_x.cfg", workers=6, timeout=1500)))
+    u1.append(("Election/exhaustive-3-y", Bg(ctx.tlc_must_pass, "Election", "Election_y.cfg", workers=3, timeout=1500)))
     if thorough:
-        u1.append(("Election/exhaustive-3-health", Bg(ctx.tlc_must_pass, "Election", "Election_y.cfg", workers=8, timeout=1500)))
+        u1.append(("Election/exhaustive-3-z", Bg(ctx.tlc_must_pass, "Election", "Election_z.cfg", workers=8, timeout=1500)))
     u1.append(("Election/simulate-4-5", Bg(ctx.tlc_must_pass, "Election", "Election_sim.cfg", workers=2,
-                                           simulate="num=%d" % (6000 if thorough else 600), depth=80, seed=ctx.seed, timeout=1500)))
+                                           simulate="num=%d" % (1200 if thorough else 100), depth=80, seed=ctx.seed, timeout=1500)))
+    u1.append(("Election/simulate-3", Bg(ctx.tlc_must_pass, "Election", "Election_sim3.cfg", workers=1,
+                                         simulate="num=%d" % (2000 if thorough else 200), depth=80, seed=ctx.seed, timeout=1500)))
 
     # ------------------------------------------------------------------ schedules from the spec (as built)
     ngen, per, depth = (8, 250, 70) if thorough else (6, 40, 70)
@@ -186,7 +227,7 @@ def run(ctx):
         env["VERIF_C17_SELFTEST"] = selftest
     run_bin(ctx, binary, "TestVerifC17Place$", env)
     ringrec.get()
-    sched = []
+    sched = directed_schedules()
     for g in gens:
         sched += g.get()
     nshard = 8
@@ -200,6 +241,8 @@ def run(ctx):
     u1res = {}
     for name, th in u1:
         r = th.get()
+        if "simulate" in name:
+            sim_counts(r)
         u1res[name] = r
         vlib.log("U1 %s: %d generated, %d distinct, %.1fs" % (name, r.generated, r.distinct, r.wall))
 
